@@ -82,8 +82,14 @@ class Facts:
 
     def crate(self, name):
         if name not in self._crates:
-            with open(os.path.join(self.dir, name + ".json")) as fh:
-                d = json.load(fh)
+            path = os.path.join(self.dir, name + ".json")
+            if os.path.exists(path):
+                with open(path) as fh:
+                    d = json.load(fh)
+            else:
+                import gzip
+                with gzip.open(path + ".gz", "rt") as fh:
+                    d = json.load(fh)
             self._crates[name] = d
             idx = {}
             for b in d["bodies"]:
@@ -94,7 +100,7 @@ class Facts:
         return self._crates[name]
 
     def has_crate(self, name):
-        return os.path.exists(os.path.join(self.dir, name + ".json"))
+        return os.path.exists(os.path.join(self.dir, name + ".json")) or os.path.exists(os.path.join(self.dir, name + ".json.gz"))
 
     def bodies(self, crate):
         self.crate(crate)
